@@ -82,12 +82,12 @@ pub fn owns_panic(prop: u8, double: bool, op: &'static str, after_special: bool)
         1 => pq,
         2 => !pq,
         3 => true,
-        6 => matches!(op, "sorted" | "sorted_iter"),
+        6 => matches!(op, "sorted" | "sorted_iter" | "adaptor_sorted"),
         7 => matches!(op, "extend" | "append" | "from_vec" | "from_iter" | "convert" | "ctor"),
         8 => matches!(op, "retain" | "retain_mut" | "iter_mut" | "pop_if" | "adaptor_iter_mut"),
         9 => matches!(op, "iter_mut" | "adaptor_iter_mut"),
         11 => matches!(op, "push_increase" | "push_decrease"),
-        13 => matches!(op, "iter" | "ref_into_iter" | "into_iter" | "drain" | "sorted_iter" | "adaptor"),
+        13 => matches!(op, "iter" | "ref_into_iter" | "into_iter" | "drain" | "sorted_iter" | "adaptor" | "adaptor_sorted"),
         14 => matches!(op, "eq" | "clone"),
         15 => matches!(op, "serde" | "deser_seq"),
         16 => matches!(op, "clear" | "drain") || after_special,
